@@ -2425,6 +2425,7 @@ where
         }
 
         let mut events = Vec::new();
+        self.apply_disconnect_session_expiry(packet.props());
         self.status = ConnectionStatus::Disconnected;
         self.cancel_timers(&mut events);
         events.push(GenericEvent::RequestSendPacket {
@@ -2434,6 +2435,16 @@ where
         events.push(GenericEvent::RequestClose);
 
         events
+    }
+
+    /// A Session Expiry Interval in DISCONNECT replaces the one agreed at connect time: 0 ends
+    /// the session with this connection, any other value keeps it.
+    fn apply_disconnect_session_expiry(&mut self, props: &Option<Vec<Property>>) {
+        for prop in props.iter().flatten() {
+            if let Property::SessionExpiryInterval(val) = prop {
+                self.need_store = val.val() != 0;
+            }
+        }
     }
 
     pub(crate) fn process_send_v5_0_auth(
@@ -3808,6 +3819,7 @@ where
 
         match v5_0::Disconnect::parse(raw_packet.data_as_slice()) {
             Ok((packet, _)) => {
+                self.apply_disconnect_session_expiry(packet.props());
                 self.cancel_timers(&mut events);
                 events.push(GenericEvent::NotifyPacketReceived(packet.into()));
             }
